@@ -1,6 +1,390 @@
 import Pff.Model.Ecc
 import Pff.Props.C10
 /-! Helper lemmas for C03 / C01 (per-file logic on generated tracks). -/
-namespace Pff.Ecc
+namespace Pff.Ecc.B
+open Pff.Ecc
 
-end Pff.Ecc
+open Pff.Layout
+
+/-! ## exit status -/
+
+theorem exitStatus_of_filter_eq (rs : List FileResult)
+    (h : rs.filter (·.corrupted) = rs.filter (·.complete)) : exitStatus rs = 0 := by
+  simp only [exitStatus]
+  rw [if_pos]
+  right
+  rw [h]
+
+theorem exitStatus_of_none_corrupted (rs : List FileResult)
+    (h : ∀ r ∈ rs, r.corrupted = false) : exitStatus rs = 0 := by
+  have h0 : rs.filter (·.corrupted) = [] := by
+    rw [List.filter_eq_nil_iff]
+    intro r hr
+    rw [h r hr]
+    exact Bool.false_ne_true
+  simp only [exitStatus]
+  rw [if_pos]
+  left
+  rw [h0]
+  rfl
+
+theorem exitStatus_of_iff (rs : List FileResult)
+    (h : ∀ r ∈ rs, r.corrupted = r.complete) : exitStatus rs = 0 := by
+  apply exitStatus_of_filter_eq
+  apply List.filter_congr
+  intro r hr
+  exact h r hr
+
+/-! ## the repair loop when no block fails -/
+
+/-- the loop of `runLoop` started from state `s` at block number `n` -/
+def loopFrom (O : Ops) (fast : Bool) (thr : Nat) (s : LoopSt) (n : Nat) (blocks : List AsmBlock) :
+    LoopSt :=
+  (blocks.zipIdx n).foldl (fun s bi => loopStep O fast thr s bi.2 bi.1) s
+
+theorem runLoop_eq_loopFrom (O : Ops) (fast : Bool) (thr : Nat) (blocks : List AsmBlock) :
+    runLoop O fast thr blocks = loopFrom O fast thr { written := [] } 0 blocks := rfl
+
+theorem loopFrom_nil (O : Ops) (fast : Bool) (thr : Nat) (s : LoopSt) (n : Nat) :
+    loopFrom O fast thr s n [] = s := rfl
+
+theorem loopFrom_cons (O : Ops) (fast : Bool) (thr : Nat) (s : LoopSt) (n : Nat) (b : AsmBlock)
+    (bs : List AsmBlock) :
+    loopFrom O fast thr s n (b :: bs) = loopFrom O fast thr (loopStep O fast thr s n b) (n + 1) bs := by
+  simp only [loopFrom, List.zipIdx_cons, List.foldl_cons]
+
+/-- block `b` is either accepted as it is or repaired, and `f b` is what gets written -/
+def StepOK (O : Ops) (fast : Bool) (f : AsmBlock → Bytes) (b : AsmBlock) : Prop :=
+  (needsRepair O fast b = false ∧ processBlock O fast b = (f b, .intact)) ∨
+  (needsRepair O fast b = true ∧ processBlock O fast b = (f b, .repaired))
+
+theorem loopStep_intact (O : Ops) (fast : Bool) (thr : Nat) (s : LoopSt) (i : Nat) (b : AsmBlock)
+    (w : Bytes) (hs : s.stopped = false) (h : processBlock O fast b = (w, .intact)) :
+    loopStep O fast thr s i b = { s with written := s.written ++ [w], errConsec := false } := by
+  simp only [loopStep, hs, h, Bool.false_eq_true, if_false]
+
+theorem loopStep_repaired (O : Ops) (fast : Bool) (thr : Nat) (s : LoopSt) (i : Nat) (b : AsmBlock)
+    (w : Bytes) (hs : s.stopped = false) (h : processBlock O fast b = (w, .repaired)) :
+    loopStep O fast thr s i b =
+      { s with written := s.written ++ [w], anyRepair := true, repairedOne := true,
+               errConsec := false } := by
+  simp only [loopStep, hs, h, Bool.false_eq_true, if_false]
+
+theorem loopFrom_ok (O : Ops) (fast : Bool) (thr : Nat) (f : AsmBlock → Bytes) :
+    ∀ (blocks : List AsmBlock) (s : LoopSt) (n : Nat),
+      (∀ b ∈ blocks, StepOK O fast f b) → s.stopped = false → s.partialFail = false →
+      (loopFrom O fast thr s n blocks).stopped = false ∧
+      (loopFrom O fast thr s n blocks).partialFail = false ∧
+      (loopFrom O fast thr s n blocks).written = s.written ++ blocks.map f ∧
+      (loopFrom O fast thr s n blocks).anyRepair = (s.anyRepair || blocks.any (needsRepair O fast)) ∧
+      (loopFrom O fast thr s n blocks).repairedOne = (s.repairedOne || blocks.any (needsRepair O fast)) := by
+  intro blocks
+  induction blocks with
+  | nil =>
+    intro s n _ hs hp
+    simp only [loopFrom_nil, List.map_nil, List.append_nil, List.any_nil, Bool.or_false, hs, hp,
+      and_self]
+  | cons b bs ih =>
+    intro s n hall hs hp
+    have hb := hall b (List.mem_cons_self)
+    have hbs : ∀ b' ∈ bs, StepOK O fast f b' := fun b' hb' => hall b' (List.mem_cons_of_mem _ hb')
+    rw [loopFrom_cons]
+    rcases hb with ⟨hn, hpb⟩ | ⟨hn, hpb⟩
+    · rw [loopStep_intact O fast thr s n b _ hs hpb]
+      have := ih { s with written := s.written ++ [f b], errConsec := false } (n + 1) hbs hs hp
+      simp only [List.map_cons, List.any_cons, hn, Bool.false_or]
+      simpa only [List.append_assoc, List.singleton_append] using this
+    · rw [loopStep_repaired O fast thr s n b _ hs hpb]
+      have := ih { s with written := s.written ++ [f b], anyRepair := true, repairedOne := true,
+                          errConsec := false } (n + 1) hbs hs hp
+      simp only [List.map_cons, List.any_cons, hn, Bool.true_or, Bool.or_true]
+      simpa only [List.append_assoc, List.singleton_append, Bool.true_or] using this
+
+theorem runLoop_ok (O : Ops) (fast : Bool) (thr : Nat) (f : AsmBlock → Bytes)
+    (blocks : List AsmBlock) (hall : ∀ b ∈ blocks, StepOK O fast f b) :
+    (runLoop O fast thr blocks).stopped = false ∧
+    (runLoop O fast thr blocks).partialFail = false ∧
+    (runLoop O fast thr blocks).written = blocks.map f ∧
+    (runLoop O fast thr blocks).anyRepair = blocks.any (needsRepair O fast) ∧
+    (runLoop O fast thr blocks).repairedOne = blocks.any (needsRepair O fast) := by
+  have h := loopFrom_ok O fast thr f blocks { written := [] } 0 hall rfl rfl
+  rw [runLoop_eq_loopFrom]
+  simpa only [List.nil_append, Bool.false_or] using h
+
+/-! ## blocks that need no repair -/
+
+theorem processBlock_of_clean (O : Ops) (fast : Bool) (b : AsmBlock)
+    (h : needsRepair O fast b = false) : processBlock O fast b = (b.msg, .intact) := by
+  simp only [processBlock, h, Bool.false_eq_true, if_false]
+
+theorem stepOK_of_clean (O : Ops) (fast : Bool) (b : AsmBlock)
+    (h : needsRepair O fast b = false) : StepOK O fast (·.msg) b :=
+  Or.inl ⟨h, processBlock_of_clean O fast b h⟩
+
+theorem any_needsRepair_false (O : Ops) (fast : Bool) (blocks : List AsmBlock)
+    (h : ∀ b ∈ blocks, needsRepair O fast b = false) : blocks.any (needsRepair O fast) = false := by
+  rw [List.any_eq_false]
+  intro b hb
+  rw [h b hb]
+  exact Bool.false_ne_true
+
+/-- a block carrying the hash and the parity of its own message needs no repair -/
+theorem needsRepair_own (O : Ops) (fast : Bool)
+    (hacc : fast = false → ∀ k m, 1 ≤ m.length → m.length ≤ k → O.chk k m (O.enc k m) = true)
+    (off k : Nat) (m : Bytes) (h1 : 1 ≤ m.length) (h2 : m.length ≤ k) :
+    needsRepair O fast ⟨off, m, k, O.H m, O.enc k m⟩ = false := by
+  cases fast with
+  | true => simp only [needsRepair, ne_eq, not_true_eq_false, decide_false, Bool.not_true,
+      Bool.false_and, Bool.or_self]
+  | false =>
+    simp only [needsRepair, ne_eq, not_true_eq_false, decide_false, Bool.not_false,
+      Bool.true_and, Bool.false_or, hacc rfl k m h1 h2, Bool.not_true]
+
+theorem correctWholeFile_clean (O : Ops) (fast : Bool) (thr : Nat) (kOf : Nat → Nat)
+    (hashLen mbs : Nat) (content track : Bytes)
+    (h : ∀ b ∈ assemble kOf hashLen mbs content track (content.length + 1) 0 0,
+      needsRepair O fast b = false) :
+    correctWholeFile O fast thr kOf hashLen mbs content track =
+      { output := none, corrupted := false, complete := false, partialRep := false } := by
+  simp only [correctWholeFile, any_needsRepair_false O fast _ h, Bool.false_eq_true, if_false]
+
+theorem correctHeaderFile_clean (O : Ops) (fast : Bool) (thr k hashLen mbs readLen : Nat)
+    (content track : Bytes)
+    (h : ∀ b ∈ assembleHeader k hashLen mbs readLen content track (content.length + 1) 0 0,
+      needsRepair O fast b = false) :
+    correctHeaderFile O fast thr k hashLen mbs readLen content track =
+      { output := none, corrupted := false, complete := false, partialRep := false } := by
+  have hr := runLoop_ok O fast thr (·.msg) _ (fun b hb => stepOK_of_clean O fast b (h b hb))
+  have ha := hr.2.2.2.1
+  rw [any_needsRepair_false O fast _ h] at ha
+  simp only [correctHeaderFile, ha, Bool.false_eq_true, if_false]
+
+/-! ## generated tracks -/
+
+theorem whole_gen_clean (O : Ops) (fast : Bool) (hashLen mbs : Nat) (kOf : Nat → Nat)
+    (hk : ∀ x, 1 ≤ kOf x) (hpos : ∀ x, 1 ≤ hashLen + (mbs - kOf x))
+    (hH : ∀ m, (O.H m).length = hashLen)
+    (henc : ∀ k m, 1 ≤ m.length → m.length ≤ k → (O.enc k m).length = mbs - k)
+    (hacc : fast = false → ∀ k m, 1 ≤ m.length → m.length ≤ k → O.chk k m (O.enc k m) = true)
+    (content : Bytes) :
+    ∀ b ∈ assemble kOf hashLen mbs content (genTrack O.H O.enc kOf content) (content.length + 1) 0 0,
+      needsRepair O fast b = false := by
+  rw [C10_agree_whole kOf hk hashLen mbs O.H O.enc hH henc hpos content]
+  intro b hb
+  rw [List.mem_map] at hb
+  obtain ⟨lb, hlb, rfl⟩ := hb
+  have hm := layoutGen_mem kOf content.length _ _ lb hlb
+  have hl := slice_length content lb
+  have := hk lb.off
+  exact needsRepair_own O fast hacc _ _ _ (by omega) (by omega)
+
+/-- `assembleHeader` depends on `readLen` only through `content.take readLen` -/
+theorem assembleHeader_congr_take (k hashLen mbs r r' : Nat) (content track : Bytes)
+    (h : content.take r = content.take r') :
+    ∀ fuel i j, assembleHeader k hashLen mbs r content track fuel i j =
+      assembleHeader k hashLen mbs r' content track fuel i j := by
+  intro fuel
+  induction fuel with
+  | zero => intro i j; rfl
+  | succ fuel ih =>
+    intro i j
+    simp only [assembleHeader, h, ih]
+
+theorem header_gen_clean (O : Ops) (fast : Bool) (k hashLen mbs headerSize : Nat)
+    (hk : 1 ≤ k) (hpos : 1 ≤ hashLen + (mbs - k))
+    (hH : ∀ m, (O.H m).length = hashLen)
+    (henc : ∀ k m, 1 ≤ m.length → m.length ≤ k → (O.enc k m).length = mbs - k)
+    (hacc : fast = false → ∀ k m, 1 ≤ m.length → m.length ≤ k → O.chk k m (O.enc k m) = true)
+    (content : Bytes) :
+    ∀ b ∈ assembleHeader k hashLen mbs headerSize content
+        (genTrackHeader O.H O.enc k headerSize content) (content.length + 1) 0 0,
+      needsRepair O fast b = false := by
+  rw [C10_agree_header k hashLen mbs headerSize hk O.H O.enc hH (henc k) hpos content]
+  intro b hb
+  rw [List.mem_map] at hb
+  obtain ⟨lb, hlb, rfl⟩ := hb
+  have hm := layoutHeader_mem k headerSize content.length _ _ lb hlb
+  have hl := slice_length content lb
+  exact needsRepair_own O fast hacc _ _ _ (by omega) (by omega)
+
+/-- the number of bytes the header tool reads gives the same header as `headerSize` whenever the
+recorded size is the size of the file -/
+theorem take_readLen (content : Bytes) (headerSize : Nat) :
+    content.take (if 0 < content.length ∧ content.length < headerSize then content.length
+      else headerSize) = content.take headerSize := by
+  split
+  · next h =>
+    rw [List.take_length, List.take_of_length_le (by omega)]
+  · rfl
+
+/-! ## blocks that are accepted or repaired to the original (C01) -/
+
+/-- the bytes of the original file at the place of block `b` -/
+def fixOf (orig : Bytes) (b : AsmBlock) : Bytes := (orig.drop b.off).take b.msg.length
+
+/-- `BlockOK` of C01 with the `let` unfolded -/
+def BlockOK' (O : Ops) (fast : Bool) (orig : Bytes) (b : AsmBlock) : Prop :=
+  (b.msg = fixOf orig b ∧ needsRepair O fast b = false) ∨
+  (needsRepair O fast b = true ∧ ∃ p, O.dec b.k b.msg b.ecc = some (fixOf orig b, p) ∧
+      (O.H (fixOf orig b) = b.hash ∨ O.chk b.k (fixOf orig b) p = true))
+
+theorem stepOK_of_blockOK (O : Ops) (fast : Bool) (orig : Bytes) (b : AsmBlock)
+    (h : BlockOK' O fast orig b) : StepOK O fast (fixOf orig) b := by
+  rcases h with ⟨hm, hn⟩ | ⟨hn, p, hd, hc⟩
+  · left
+    refine ⟨hn, ?_⟩
+    rw [processBlock_of_clean O fast b hn, ← hm]
+  · right
+    refine ⟨hn, ?_⟩
+    have hcommit : (decide (O.H (fixOf orig b) = b.hash) || O.chk b.k (fixOf orig b) p) = true := by
+      rcases hc with hc | hc
+      · rw [decide_eq_true hc, Bool.true_or]
+      · rw [hc, Bool.or_true]
+    simp only [processBlock, hn, if_true, hd, hcommit]
+
+/-- if no block needs repair, the blocks are those of the original -/
+theorem map_msg_eq_of_clean (O : Ops) (fast : Bool) (orig : Bytes) (blocks : List AsmBlock)
+    (hok : ∀ b ∈ blocks, BlockOK' O fast orig b)
+    (hany : blocks.any (needsRepair O fast) = false) :
+    blocks.map (·.msg) = blocks.map (fixOf orig) := by
+  apply List.map_congr_left
+  intro b hb
+  rw [List.any_eq_false] at hany
+  rcases hok b hb with ⟨hm, _⟩ | ⟨hn, _⟩
+  · exact hm
+  · exact absurd hn (hany b hb)
+
+theorem take_drop_add (x : Bytes) (c a b : Nat) :
+    (x.drop c).take (a + b) = (x.drop c).take a ++ (x.drop (c + a)).take b := by
+  rw [List.take_add, List.drop_drop]
+
+/-- whole-file tool: the blocks assembled sit one after the other, so the original bytes at their
+places concatenate to a segment of the original -/
+theorem assemble_fix_flatten (kOf : Nat → Nat) (hashLen mbs : Nat) (orig content track : Bytes) :
+    ∀ fuel c e,
+      ((assemble kOf hashLen mbs content track fuel c e).map (fixOf orig)).flatten =
+        (orig.drop c).take
+          ((assemble kOf hashLen mbs content track fuel c e).map (·.msg)).flatten.length := by
+  intro fuel
+  induction fuel with
+  | zero => intro c e; simp only [assemble, List.map_nil, List.flatten_nil, List.length_nil, List.take_zero]
+  | succ fuel ih =>
+    intro c e
+    simp only [assemble]
+    split
+    · split
+      · simp only [List.map_nil, List.flatten_nil, List.length_nil, List.take_zero]
+      · simp only [List.map_cons, List.flatten_cons, List.length_append, ih, fixOf, take_drop_add]
+    · simp only [List.map_nil, List.flatten_nil, List.length_nil, List.take_zero]
+
+theorem assembleHeader_nil_of_ge (k hashLen mbs r : Nat) (content track : Bytes) (fuel i j : Nat)
+    (h : (content.take r).length ≤ i) :
+    assembleHeader k hashLen mbs r content track fuel i j = [] := by
+  cases fuel with
+  | zero => rfl
+  | succ fuel =>
+    simp only [assembleHeader]
+    rw [if_neg]
+    omega
+
+/-- header tool: same fact; the offsets step by `k`, which is the length of every block except
+possibly the last one -/
+theorem assembleHeader_fix_flatten (k hashLen mbs r : Nat) (orig content track : Bytes) :
+    ∀ fuel i j,
+      ((assembleHeader k hashLen mbs r content track fuel i j).map (fixOf orig)).flatten =
+        (orig.drop i).take
+          ((assembleHeader k hashLen mbs r content track fuel i j).map (·.msg)).flatten.length := by
+  intro fuel
+  induction fuel with
+  | zero =>
+    intro i j
+    simp only [assembleHeader, List.map_nil, List.flatten_nil, List.length_nil, List.take_zero]
+  | succ fuel ih =>
+    intro i j
+    simp only [assembleHeader]
+    split
+    · next hc =>
+      by_cases hk : i + k ≤ (content.take r).length
+      · have hl : (((content.take r).drop i).take k).length = k := by
+          rw [List.length_take, List.length_drop]; omega
+        simp only [List.map_cons, List.flatten_cons, List.length_append, ih, fixOf, take_drop_add, hl]
+      · rw [assembleHeader_nil_of_ge k hashLen mbs r content track fuel (i + k) _ (by omega)]
+        simp only [List.map_cons, List.map_nil, List.flatten_cons, List.flatten_nil,
+          List.append_nil, fixOf]
+    · simp only [List.map_nil, List.flatten_nil, List.length_nil, List.take_zero]
+
+/-! ## the two tools on a file all of whose blocks are accepted or repaired -/
+
+theorem correctWholeFile_ok (O : Ops) (fast : Bool) (thr hashLen mbs : Nat) (kOf : Nat → Nat)
+    (orig damaged trackD : Bytes) (hlen : damaged.length = orig.length)
+    (hcover : ((assemble kOf hashLen mbs damaged trackD (damaged.length + 1) 0 0).map (·.msg)).flatten
+                = damaged)
+    (hok : ∀ b ∈ assemble kOf hashLen mbs damaged trackD (damaged.length + 1) 0 0,
+      BlockOK' O fast orig b) :
+    ((assemble kOf hashLen mbs damaged trackD (damaged.length + 1) 0 0).any (needsRepair O fast) = true →
+      correctWholeFile O fast thr kOf hashLen mbs damaged trackD =
+        { output := some orig, corrupted := true, complete := true, partialRep := false }) ∧
+    ((assemble kOf hashLen mbs damaged trackD (damaged.length + 1) 0 0).any (needsRepair O fast) = false →
+      correctWholeFile O fast thr kOf hashLen mbs damaged trackD =
+        { output := none, corrupted := false, complete := false, partialRep := false } ∧
+      damaged = orig) := by
+  have hfix := assemble_fix_flatten kOf hashLen mbs orig damaged trackD (damaged.length + 1) 0 0
+  have htake : orig.take damaged.length = orig := by rw [hlen, List.take_length]
+  rw [hcover, List.drop_zero, htake] at hfix
+  constructor
+  · intro hany
+    obtain ⟨_, hpf, hw, _, hro⟩ := runLoop_ok O fast thr (fixOf orig) _
+      (fun b hb => stepOK_of_blockOK O fast orig b (hok b hb))
+    have hbody : (runLoop O fast thr
+        (assemble kOf hashLen mbs damaged trackD (damaged.length + 1) 0 0)).written.flatten = orig := by
+      rw [hw, hfix]
+    rw [hany] at hro
+    have hdrop : damaged.drop orig.length = [] := by
+      rw [← hlen]; exact List.drop_length
+    simp only [correctWholeFile, hany, if_true, hro, hpf, hbody, hdrop, List.append_nil,
+      Bool.not_false]
+  · intro hany
+    constructor
+    · simp only [correctWholeFile, hany, Bool.false_eq_true, if_false]
+    · rw [← hcover, map_msg_eq_of_clean O fast orig _ hok hany, hfix]
+
+theorem correctHeaderFile_ok (O : Ops) (fast : Bool) (thr k hashLen mbs readLen : Nat)
+    (orig damaged trackD : Bytes) (hlen : damaged.length = orig.length)
+    (hcover : ((assembleHeader k hashLen mbs readLen damaged trackD (damaged.length + 1) 0 0).map
+                (·.msg)).flatten = damaged.take readLen)
+    (hok : ∀ b ∈ assembleHeader k hashLen mbs readLen damaged trackD (damaged.length + 1) 0 0,
+      BlockOK' O fast orig b) :
+    ((assembleHeader k hashLen mbs readLen damaged trackD (damaged.length + 1) 0 0).any
+        (needsRepair O fast) = true →
+      correctHeaderFile O fast thr k hashLen mbs readLen damaged trackD =
+        { output := some (orig.take readLen ++ damaged.drop readLen), corrupted := true,
+          complete := true, partialRep := false }) ∧
+    ((assembleHeader k hashLen mbs readLen damaged trackD (damaged.length + 1) 0 0).any
+        (needsRepair O fast) = false →
+      correctHeaderFile O fast thr k hashLen mbs readLen damaged trackD =
+        { output := none, corrupted := false, complete := false, partialRep := false } ∧
+      damaged.take readLen = orig.take readLen) := by
+  have hfix := assembleHeader_fix_flatten k hashLen mbs readLen orig damaged trackD
+    (damaged.length + 1) 0 0
+  have htake : orig.take (damaged.take readLen).length = orig.take readLen := by
+    rw [List.take_eq_take_iff, List.length_take]; omega
+  rw [hcover, List.drop_zero, htake] at hfix
+  obtain ⟨_, hpf, hw, har, _⟩ := runLoop_ok O fast thr (fixOf orig) _
+    (fun b hb => stepOK_of_blockOK O fast orig b (hok b hb))
+  constructor
+  · intro hany
+    rw [hany] at har
+    have hdrop : damaged.drop (damaged.take readLen).length = damaged.drop readLen := by
+      rw [List.length_take]
+      by_cases h : readLen ≤ damaged.length
+      · rw [Nat.min_eq_left h]
+      · rw [Nat.min_eq_right (by omega), List.drop_length, List.drop_eq_nil_of_le (by omega)]
+    simp only [correctHeaderFile, har, if_true, hpf, hw, List.length_map, List.drop_length,
+      List.map_nil, List.append_nil, hfix, hcover, hdrop, Bool.not_false]
+  · intro hany
+    rw [hany] at har
+    constructor
+    · simp only [correctHeaderFile, har, Bool.false_eq_true, if_false]
+    · rw [← hcover, map_msg_eq_of_clean O fast orig _ hok hany, hfix]
+
+end Pff.Ecc.B
